@@ -18,7 +18,7 @@ func (p *AggregatorPlanner) process(ctx *shared.PlannerContext,
 	in chan []shared.LogEntry, ops aggregatorPlannerOps) (chan []shared.LogEntry, error) {
 
 	streamLen := ctx.To.Sub(ctx.From).Nanoseconds() / p.Duration.Nanoseconds()
-	if streamLen > 4000000000 {
+	if streamLen > 100000 { // two float64 per range window and series are allocated (4e9 windows = 64 GB: out of memory)
 		return nil, &shared.NotSupportedError{Msg: "stream length is too large. Please try increasing duration."}
 	}
 
